@@ -125,6 +125,22 @@ impl Chain {
         }
         out
     }
+    /// the six addresses wired into the hub (dispatcher, registry, bSei, stSei, airdrop, rewards), from its stored Config
+    pub fn hub_wiring(&self) -> [Option<Id>; 6] {
+        let c = self.stores.get(&HUB).and_then(|st| basset_sei_hub::state::CONFIG.load(st).ok());
+        let f = |x: &Option<CanonicalAddr>| x.as_ref().and_then(|c| MockApi::default().addr_humanize(c).ok()).map(|a| id_of(a.as_str()));
+        match c {
+            Some(c) => [
+                f(&c.reward_dispatcher_contract),
+                f(&c.validators_registry_contract),
+                f(&c.bsei_token_contract),
+                f(&c.stsei_token_contract),
+                f(&c.airdrop_registry_contract),
+                f(&c.rewards_contract),
+            ],
+            None => [None; 6],
+        }
+    }
     /// one `AllHistory { start_from, limit }` page, exactly as the query returns it
     pub fn hub_history_page(&self, start: Option<u64>, limit: Option<u32>) -> Result<Vec<HistView>, String> {
         let r: Result<basset::hub::AllHistoryResponse, String> =
@@ -438,6 +454,7 @@ impl Chain {
         }
         let nored = j(VALS.iter().filter(|v| self.no_redelegate.contains(v)).map(|v| v.to_string()).collect());
         let noundel = j(VALS.iter().filter(|v| self.no_undelegate.contains(v)).map(|v| v.to_string()).collect());
+        let inactive = j(VALS.iter().filter(|v| self.inactive.contains(v)).map(|v| v.to_string()).collect());
         vec![
             format!("hub.raw={}", s8(raw)),
             format!("hub.q={}", hq),
@@ -453,7 +470,7 @@ impl Chain {
             format!("disp={}", disp_s),
             format!("reg={};[{}]", reg_s, regq),
             format!(
-                "chain={},{};bank[{}];deleg[{}];unb[{}];pend[{}];wa={};nored[{}];noundel[{}]",
+                "chain={},{};bank[{}];deleg[{}];unb[{}];pend[{}];wa={};nored[{}];noundel[{}];inactive[{}]",
                 self.time,
                 self.height,
                 j(bank),
@@ -462,7 +479,8 @@ impl Chain {
                 j(pend),
                 self.withdraw_addr,
                 nored,
-                noundel
+                noundel,
+                inactive
             ),
         ]
         .join(" ")
